@@ -267,12 +267,17 @@ struct NodeLedger {
 // NOT forwarded (so the run can go on and the double free is named by the oracle, not only by ASan)
 template <typename T>
 struct LedgerAlloc {
+    // arena-tagged: every instance has an identity (tag); instances with different tags are unequal; a block
+    // must be returned through an instance of the arena that produced it.  Tag 0 = default-constructed.
     using value_type = T;
+    int tag = 0;
     LedgerAlloc() = default;
-    template <typename U2> LedgerAlloc(const LedgerAlloc<U2>&) {}
+    explicit LedgerAlloc(int t) : tag(t) {}
+    template <typename U2> LedgerAlloc(const LedgerAlloc<U2>& o) : tag(o.tag) {}
     T* allocate(size_t n) {
         T* p = std::allocator<T>().allocate(n);
         NodeLedger::get().live.insert(p);
+        g_owner()[p] = tag;
         ++NodeLedger::get().allocs;
         return p;
     }
@@ -280,12 +285,18 @@ struct LedgerAlloc {
         auto& L = NodeLedger::get();
         auto it = L.live.find(p);
         if (it == L.live.end()) { L.errors.push_back("node freed twice (or never allocated)"); return; }
+        auto ow = g_owner().find(p);
+        if (ow != g_owner().end() && ow->second != tag)
+            L.errors.push_back("node of allocator arena " + std::to_string(ow->second) +
+                               " freed through the foreign allocator instance " + std::to_string(tag));
+        if (ow != g_owner().end()) g_owner().erase(ow);
         L.live.erase(it);
         ++L.frees;
         std::allocator<T>().deallocate(p, n);
     }
-    template <typename U2> bool operator==(const LedgerAlloc<U2>&) const { return true; }
-    template <typename U2> bool operator!=(const LedgerAlloc<U2>&) const { return false; }
+    static std::map<const void*, int>& g_owner() { static std::map<const void*, int> m; return m; }
+    template <typename U2> bool operator==(const LedgerAlloc<U2>& o) const { return tag == o.tag; }
+    template <typename U2> bool operator!=(const LedgerAlloc<U2>& o) const { return tag != o.tag; }
 };
 
 // the tree's comparator on the key type K: compares the ids; a moved-from key is an error
@@ -304,7 +315,9 @@ struct Splay : ICont {
     using T = tlx::SplayTree<K, KCmp<K, Cmp>, Dup, LedgerAlloc<K>>;
     static int kid(const K& k) { return static_cast<int>(Conv<K>::id(k)); }
     using Node = typename T::Node;
-    std::unique_ptr<T> tr{new T()};
+    // constructed with a distinct, non-default allocator instance (arena tag >= 1)
+    static int& next_tag() { static int t = 1; return t; }
+    std::unique_ptr<T> tr{new T(LedgerAlloc<K>(next_tag()++))};
     std::multiset<int, Cmp> ref;
     Cmp cmp;
 
